@@ -64,7 +64,7 @@ def effect_rule(ctx: Ctx, cg: CallGraph, roots, rule: str, label: str, floor_not
                 bad = True
                 ctx.refuted(rule, e.site,
                             f"{e.kind} on `{e.target}` (rooted at {e.root_class} `{e.root}`) is reachable from {label}: "
-                            f"decoding must not write to definition objects, classes, globals or shared arguments",
+                            f"it must not write to definition objects, classes, globals or shared arguments",
                             where=where(fi, e.node), kind=e.kind, root=e.root_class)
             elif a is None:
                 bad = True
